@@ -464,7 +464,7 @@ Definition choose_target (c : config) (k : N) (hint : option N) (w : world) : op
 
 Inductive route_result := Handled | Backlog (j : job) | RateLimited (j : job).
 
-(* the scripted RateLimiter::check; an exhausted (or absent) script admits *)
+(* the scripted RateLimiter::check; an exhausted (or absent) script lets in *)
 Definition rl_check (w : world) : bool * world :=
   match rl w with [] => (true, w) | b :: r => (b, set_rl r w) end.
 
